@@ -4,6 +4,7 @@ import (
 	"fmt"
 	mbits "math/bits"
 	"runtime/debug"
+	"strings"
 
 	"github.com/openacid/low/bitmap"
 
@@ -20,6 +21,9 @@ type c02Case struct {
 	// long bitmaps are named by (length, pattern) of the sweep generator instead of being listed
 	Len     int `json:"len,omitempty"`
 	Pattern int `json:"pattern,omitempty"`
+	// the EMPTY bitmap handed over in form EmptyForm-1 of gen.EmptyU64 (nil, non-nil, spare capacity, tail)
+	EmptyForm int    `json:"empty_form,omitempty"`
+	FormName  string `json:"empty_form_name,omitempty"`
 }
 
 func init() {
@@ -224,6 +228,18 @@ func c02OneNamed(c *mc.Ctx, order int64, w []uint64, ones []int32, nameLen, name
 }
 
 func c02Run(c *mc.Ctx) {
+	// the EMPTY bitmap in every form a caller can hand it over: both index builders owe the empty select
+	// index and (R64) the one-entry rank index for each of them
+	for f := 0; f < gen.EmptyForms; f++ {
+		cs := c02Case{EmptyForm: f + 1, FormName: gen.EmptyFormName(f)}
+		for _, k := range []string{"IndexSelect32", "IndexSelect32R64"} {
+			if g, w := c02Judge(k, cs); g != w {
+				c.Fail(int64(7)<<56|int64(f), k+"/empty-"+gen.EmptyFormName(f), k, cs, g, w)
+			}
+		}
+		c.Count(2, 0)
+	}
+	c.Expect(2 * gen.EmptyForms)
 	sp := c02Space(c)
 	shards := sp.Shards()
 	lanes := laneWords()
@@ -421,6 +437,12 @@ func c02Judge(kind string, cs c02Case) (got, want string) {
 	w := []uint64(cs.Words)
 	if cs.Len > 0 {
 		w = c01SweepBitmap(cs.Len, cs.Pattern)
+	}
+	if cs.EmptyForm > 0 {
+		w = gen.EmptyU64(cs.EmptyForm - 1)
+		if i := strings.Index(kind, "/empty-"); i >= 0 {
+			kind = kind[:i]
+		}
 	}
 	ones := onesOf(w, nil)
 	var wantS []int32
